@@ -10,8 +10,10 @@ from . import c01
 from . import pegcommon as P
 
 PID = "C19"
-OPTS = dict(max_rules=4, depth=3, comment=0.3, modifiers=0.5, unord=0.1, preds=0.12, sup=0.1, eol=0.2, sep=0.3,
-            ws_mod=0.2)
+# few distinct literals, many of them suppressed or used as separators: the same literal text plays several roles in
+# one grammar (value, suppressed match, separator), which a memoizing parser must keep apart
+OPTS = dict(max_rules=4, depth=3, comment=0.3, modifiers=0.5, unord=0.1, preds=0.12, sup=0.25, eol=0.2, sep=0.4,
+            ws_mod=0.2, lits=["a", "b", ",", ";", "+", "if"])
 
 
 def with_memo(cases, memo):
